@@ -6,9 +6,8 @@ CONSTANTS
   MaxRepeats = 1
   Dump = TRUE
 INVARIANT RuntimeValueRight
-INVARIANT FreshWithoutRepeat
-INVARIANT StaleIsBase
-INVARIANT HazardOnlyIfStale
+INVARIANT CresIsValue
+INVARIANT ImplAgrees
 INVARIANT RepLaws
 INVARIANT Publish
 CHECK_DEADLOCK FALSE
